@@ -138,6 +138,9 @@ func (e *Engine) verifyContract(c *Contract) (res *UnitResult) {
 			mods["*"] = "all"
 			continue
 		}
+		if strings.HasPrefix(m, "arg:") {
+			continue // caller-side place (only used on assumed contracts)
+		}
 		fresh := strings.HasPrefix(m, "fresh ")
 		for _, k := range x.placeKeys(pkg, m) {
 			if fresh {
